@@ -124,3 +124,25 @@ def events_with_token_index(ev, tokens, textlen=None):
         else:
             out.append([tag, kind, ends.get(loc[1], -1)])
     return out
+
+
+def scribble(node, marker, seen=None):
+    """In-place edit of a tree the way the library's own inline visitors do it: append `marker` to EVERY list-valued child
+    attribute.  Returns the number of lists written to.  A later parse must not see any of it (trees do not share state)."""
+    from py_gql.lang import ast as A
+    seen = set() if seen is None else seen
+    kind = type(node).__name__
+    n = 0
+    for attr in CHILDREN.get(kind, ()):
+        v = getattr(node, attr, None)
+        if isinstance(v, list):
+            for x in list(v):
+                if isinstance(x, A.Node):
+                    n += scribble(x, marker, seen)
+            if id(v) not in seen:
+                seen.add(id(v))
+                v.append(marker)
+                n += 1
+        elif isinstance(v, A.Node):
+            n += scribble(v, marker, seen)
+    return n
